@@ -654,10 +654,10 @@ _pc.single_bucket_ok = True
 _po = Part("oct-from-key-text", h_oct_text, split_depth=2)
 _po.single_bucket_ok = True
 PARTS = [
-    Part("jws-keys", h_jws, split_depth=3, budget={"quick": 120, "thorough": 1800}),
-    Part("jwe-keys", h_jwe, split_depth=3, budget={"quick": 150, "thorough": 2400}),
+    Part("jws-keys", h_jws, split_depth=3, budget={"quick": 1200, "thorough": 1800}),
+    Part("jwe-keys", h_jwe, split_depth=3, budget={"quick": 1500, "thorough": 2400}),
     Part("ecdh-cross-curve", h_ecdh_cross, split_depth=2),
     Part("one-key-over-time", custom=key_histories, engine="E2"),
-    Part("thread-schedules", h_threads, bound={"quick": 1, "thorough": 2}, split_depth=2, budget={"quick": 200, "thorough": 3000}, engine="E3"),
+    Part("thread-schedules", h_threads, bound={"quick": 1, "thorough": 2}, split_depth=2, budget={"quick": 2000, "thorough": 3000}, engine="E3"),
     _pc, _po,
 ]
